@@ -73,6 +73,13 @@ def gen_cases(tier, seed):
     rng = random.Random(f'c19-{seed}')
     n = 240 if tier == 'quick' else 9000
     cases = []
+    # deterministic probe of the overlapping-separator behaviour (so a listed
+    # known finding is re-observed on every run, and a repair is noticed)
+    cases.append({'kind': 'reads', 'enc': None, 'total': 8,
+                  'content': 'zzabczz\n', 'window': 2097152, 'pkt': 32768,
+                  'sizes': [4, 4], 'cseed': 1, 'err_too': False, 'eof': True,
+                  'ops': [['readuntil', {'k': 'tuple', 'v': ['b', 'abc']},
+                           'overlap'], ['read', -1]]})
     for k in range(n):
         r = rng.random()
         if r < 0.70:
@@ -105,10 +112,13 @@ def gen_cases(tier, seed):
                           'err_too': rng.random() < 0.3,
                           'eof': rng.random() < 0.8})
         elif r < 0.80:
+            window = rng.choice([16, 1024, 2097152])
             cases.append({'kind': 'run', 'enc': rng.choice([None, 'utf-8']),
-                          'out': rng.choice([0, 1, 100, 70000, 300000]),
-                          'err': rng.choice([0, 5, 40000]),
-                          'window': rng.choice([16, 1024, 2097152]),
+                          'out': rng.choice([0, 1, 100, 70000, 300000])
+                          if window > 16 else rng.choice([0, 1, 100, 3000]),
+                          'err': rng.choice([0, 5, 40000])
+                          if window > 16 else rng.choice([0, 5, 900]),
+                          'window': window,
                           'exit': rng.choice([['status', 0], ['status', 7],
                                               ['signal', 'TERM'],
                                               ['status', 255]]),
@@ -126,9 +136,9 @@ def gen_cases(tier, seed):
                           'cseed': rng.randrange(1 << 30)})
         elif r < 0.94:
             window = rng.choice([1, 100, 4096])
-            cases.append({'kind': 'drain',
-                          'size': rng.choice([10, 70000, 400000])
-                          if window > 1 else rng.choice([10, 66000]),
+            high = rng.choice([64, 1024, 65536]) if window > 1 else 64
+            cases.append({'kind': 'drain', 'high': high,
+                          'size': rng.choice([10, high + 1, 6 * high]),
                           'window': window,
                           'fate': rng.choice(['read', 'read', 'close',
                                               'cut']),
@@ -294,10 +304,13 @@ async def _do_op(reader, op, enc):
         return ('exc', repr(exc))
 
 
-def _reads_once(case, chunk, viol, mon):
+def _reads_once(case, chunk, viol, mon, sizes=None):
     enc = case['enc']
+    sizes = case['sizes'] if sizes is None else sizes
     rng = random.Random(case['cseed'])
     S = _content(rng, enc, case['total'])
+    if case.get('content') is not None:
+        S = case['content'] if enc else case['content'].encode()
     E = _content(rng, enc, case['total'] // 2) if case['err_too'] else \
         ('' if enc else b'')
     results = {'out': [], 'err': []}
@@ -324,8 +337,8 @@ def _reads_once(case, chunk, viol, mon):
             async def server():
                 yr = random.Random(case['cseed'] + 1)
                 await ss.started.wait()
-                op = apps.cut(S, case['sizes'])
-                ep = apps.cut(E, case['sizes'])
+                op = apps.cut(S, sizes)
+                ep = apps.cut(E, sizes)
                 for i in range(max(len(op), len(ep))):
                     for _ in range(yr.choice([0, 0, 1, 3])):
                         await asyncio.sleep(0)
@@ -412,12 +425,31 @@ def _reads_once(case, chunk, viol, mon):
 def _run_reads(case, mon, viol, tier):
     rng = random.Random(case['cseed'] ^ 77)
     k = 3 if tier == 'quick' else 6
-    chunks = ['all', 'one'] + rng.sample(CHUNKS[2:], k - 2)
+    total = len(case.get('content') or '') or case['total']
+    # variants differ in how the same content is cut into packets (piece
+    # sizes) and in how the wire cuts the byte stream
+    variants = [('all', [total]),
+                ('one', [1] * min(total, 400)),
+                (rng.choice(CHUNKS[2:]), case['sizes'])]
+    while len(variants) < k:
+        n = rng.choice([2, 3, 7])
+        variants.append((rng.choice(CHUNKS),
+                         [rng.randint(0, max(1, 2 * total // n))
+                          for _ in range(n)]))
     allres = {}
-    for ch in chunks:
-        allres[ch] = _reads_once(case, ch, viol, mon)
+    chunks = []
+    for i, (ch, sizes) in enumerate(variants):
+        name = 'all' if i == 0 else f'{ch}#{i}'
+        chunks.append(name)
+        allres[name] = _reads_once(case, ch, viol, mon, sizes)
 
-    # chunk independence for the deterministic ops
+    # chunk independence for the deterministic ops; a window smaller than the
+    # stream makes readuntil partials depend on how much had arrived when the
+    # buffer filled, which the documentation allows
+    rng2 = random.Random(case['cseed'])
+    total_units = len(_content(rng2, case['enc'], case['total']))
+    if case['window'] < 6 * total_units + 8:
+        return
     base = allres['all']['out']
     for ch in chunks[1:]:
         other = allres[ch]['out']
@@ -655,7 +687,8 @@ def _run_drain(case, mon, viol):
             ss = sessions[0]
             await ss.started.wait()
             ss.chan.pause_reading()
-            high = 65536
+            high = case['high']
+            w.channel.set_write_buffer_limits(high=high)
             w.write(data)
             buffered = w.channel.get_write_buffer_size()
             dr = asyncio.ensure_future(w.drain())
